@@ -314,7 +314,7 @@ func main() {
 		merge(local)
 	})
 	run.Assume = []string{
-		"configuration product as in C01 (13440 key/sub-encoder combinations incl. nil and no-op) x entry variants x separators {default, |, space, ::, multi-byte} x line endings; messages may be empty (the message column is present whenever its key is set); when the line STARTS with a column of empty text (an empty message, or the time under an empty time layout) that is directly followed by the message or the field object, the separator after that empty text is not determined by the statement and the encoder's choice (none) is accepted - between metadata columns it is determined; function names are non-empty (whether an empty function name is 'a value' is not determined)",
+		"configuration product as in C01 (13440 key/sub-encoder combinations incl. nil and no-op) x entry variants x separators {default, |, space, ::, multi-byte} x line endings; messages may be empty (the message column is present whenever its key is set); when the line STARTS with a column of empty text (an empty message, or the time under an empty time layout) that is directly followed by the message or the field object, the separator after that empty text is not determined by the statement and the encoder's choice (none) is accepted - between metadata columns it is determined; a defined caller without a function name is among the entries (the function column is then an empty text, as the encoder prints it)",
 		"a nil or no-op sub-encoder yields no column; a nil name encoder falls back to the full name (documented)",
 		"sequences of <= max_tree_nodes reflected values (encodable / unencodable / failing json.Marshaler / array that carries on after unencodable elements) under zap's default reflection encoder and under a user-supplied streaming NewReflectedEncoder that fails after partial output",
 		"one string of every length up to the stated sweep maximum, with one special unit (quote, newline, invalid byte, two-byte rune) at the start / middle / end, as message, logger name and field value",
